@@ -10,6 +10,8 @@ mod c_bits;
 #[cfg(kani)]
 mod c_grid;
 #[cfg(kani)]
+mod c_region;
+#[cfg(kani)]
 mod c_coding;
 #[cfg(kani)]
 mod c_modular;
@@ -19,3 +21,6 @@ mod c_image;
 mod c_container;
 #[cfg(kani)]
 mod playback_gen;
+
+// c_render.rs (C08/C20 render-handle harness) is kept in the tree but not compiled: symbolic
+// execution of FrameRender<S>'s drop glue does not finish (DESIGN section 8).
